@@ -248,25 +248,31 @@ func c17StreamOne(c *mc.Ctx, k c17Stream, enc []byte) {
 		}
 		return
 	}
-	E := termErrs[k.Env.Err]
-	if err == nil {
-		bad("no-error", "the data ran out but the call succeeded")
-		return
-	}
-	if !er.ErrReturned && errors.Is(err, io.ErrNoProgress) {
-		return // the reader gave up on a source that kept answering (0, nil) before the source produced its error
-	}
-	if !errors.Is(err, E) {
-		bad("source-error-not-matchable", "the failure %q (%T) does not match the source's error under errors.Is", err, err)
-		return
-	}
-	if (k.Env.Err == 2 || k.Env.Err == 3 || k.Env.Err == 5) && !errors.Is(err, errX) {
-		bad("source-error-not-matchable", "the failure %q does not match the wrapped sentinel under errors.Is", err)
-		return
-	}
-	var te *typedErr
-	if k.Env.Err == 5 && (!errors.As(err, &te) || te != E) {
-		bad("source-error-not-matchable", "the failure %q no longer carries the source's own error value (errors.As to its type fails)", err)
+	// matching is done by the caller's errors.Is / errors.As: a panic inside them (an Is method comparing values of a
+	// non-comparable type with ==) is the failure not being matchable
+	if pm := mc.Try(func() {
+		E := termErrs[k.Env.Err]
+		if err == nil {
+			bad("no-error", "the data ran out but the call succeeded")
+			return
+		}
+		if !er.ErrReturned && errors.Is(err, io.ErrNoProgress) {
+			return // the reader gave up on a source that kept answering (0, nil) before the source produced its error
+		}
+		if !errors.Is(err, E) {
+			bad("source-error-not-matchable", "the failure %q (%T) does not match the source's error under errors.Is", err, err)
+			return
+		}
+		if (k.Env.Err == 2 || k.Env.Err == 3 || k.Env.Err == 5) && !errors.Is(err, errX) {
+			bad("source-error-not-matchable", "the failure %q does not match the wrapped sentinel under errors.Is", err)
+			return
+		}
+		var te *typedErr
+		if k.Env.Err == 5 && (!errors.As(err, &te) || te != E) {
+			bad("source-error-not-matchable", "the failure %q no longer carries the source's own error value (errors.As to its type fails)", err)
+		}
+	}); pm != nil {
+		bad("source-error-not-matchable", "matching the failure against the source's error with errors.Is panicked: %s at %s", pm.Msg, pm.Frame)
 	}
 }
 
